@@ -5,7 +5,6 @@ package main
 import (
 	"fmt"
 	"go/constant"
-	"go/token"
 	"go/types"
 	"sort"
 	"strings"
@@ -165,8 +164,33 @@ func autoInline(p *Prog, root *ssa.Function, maxBlocks int) map[*ssa.Function]bo
 	return out
 }
 
+// neverInline: functions the rules recognise by name as one abstract step
+// (cache handlers, distributors, constructors, adapters); inlining them would
+// dissolve the very effect a table expects to see.
+var neverInline = map[string]bool{
+	"_cache.doSync": true, "_cache.doUpdate": true, "_cache.doRefilter": true, "_cache.doList": true, "_cache.Get": true,
+	"controller.distributeEvents": true, "filterSubscription.distributeEvents": true, "publisher.distributeEvent": true,
+	"publisher.createSubscription": true, "publisher.Subscribe": true, "publisher.SubscribeWithFilter": true, "publisher.SubscribeForFilter": true,
+	"_lister.list": true, "_lister.executeList": true, "_ticker.nextPeriod": true, "_watchSession.connect": true,
+	"listResourceVersion": true, "extractList": true, "InvolvedFilter": true, "Selector": true,
+	"listerBuilder.Client": true, "watcherBuilder.Client": true,
+	"_adapter.adaptObject": true, "_adapter.adaptList": true, "wrapEvent": true, "buildServicesFilter": true,
+}
+
+func neverInlined(g *ssa.Function) bool {
+	n := g.Name()
+	if strings.HasPrefix(n, "new") || strings.HasPrefix(n, "New") || strings.HasPrefix(n, "Build") || strings.HasPrefix(n, "make") {
+		return true
+	}
+	full := fnName(g)
+	if i := strings.LastIndex(full, ":"); i >= 0 {
+		full = full[i+1:]
+	}
+	return neverInline[full]
+}
+
 func simpleHelper(g *ssa.Function, maxBlocks int) bool {
-	if len(g.Blocks) > maxBlocks {
+	if len(g.Blocks) > maxBlocks || neverInlined(g) {
 		return false
 	}
 	for _, b := range g.Blocks {
@@ -176,18 +200,11 @@ func simpleHelper(g *ssa.Function, maxBlocks int) bool {
 			}
 		}
 		for _, in := range b.Instrs {
-			switch x := in.(type) {
-			case *ssa.Go, *ssa.Defer, *ssa.Send, *ssa.MakeClosure, *ssa.Panic:
+			switch in.(type) {
+			case *ssa.Go, *ssa.Defer, *ssa.MakeClosure:
 				return false
-			case *ssa.Select:
-				if x.Blocking {
-					return false
-				}
-			case *ssa.UnOp:
-				if x.Op == token.ARROW {
-					return false
-				}
 			}
+			_ = in
 		}
 	}
 	return true
@@ -360,4 +377,49 @@ func phiRoles(header *ssa.BasicBlock, roles map[string]func(*ssa.Phi) bool) map[
 
 func phiTypeIs(s string) func(*ssa.Phi) bool {
 	return func(p *ssa.Phi) bool { return typeStr(p.Type()) == s }
+}
+
+// ownerClosure returns the set of functions that run on the goroutine of
+// entry `run` only: run itself plus every same-package function all of whose
+// uses are plain calls from functions already in the set (so that an
+// "extract helper" refactoring keeps code inside its owner).
+func (p *Prog) ownerClosure(run *ssa.Function) map[*ssa.Function]bool {
+	set := map[*ssa.Function]bool{run: true}
+	if run == nil || run.Pkg == nil {
+		return set
+	}
+	rel := strings.TrimPrefix(strings.TrimPrefix(run.Pkg.Pkg.Path(), modPath), "/")
+	cands := p.SrcFuncs(rel)
+	for changed := true; changed; {
+		changed = false
+		for _, f := range cands {
+			if set[f] || f.Parent() != nil {
+				continue
+			}
+			cs := p.callersOf(f)
+			if len(cs) == 0 {
+				continue
+			}
+			ok := true
+			for _, s := range cs {
+				if s.Kind != "call" || !set[s.Fn] {
+					ok = false
+				}
+			}
+			if ok {
+				set[f] = true
+				changed = true
+			}
+		}
+	}
+	return set
+}
+
+// ownedBy reports whether f is run or one of run's private helpers.
+func (p *Prog) ownedBy(f *ssa.Function, runRel, runName string) bool {
+	run := p.Func(runRel, runName)
+	if run == nil {
+		return false
+	}
+	return p.ownerClosure(run)[f]
 }
